@@ -138,6 +138,8 @@ uint64_t q120_product_check(q120_kernel_t k0, int avx2, uint64_t ell, int famx, 
   gbuf_t gx, gy, gr;
   uint64_t* x = gb_alloc(&gx, ell * xs, 8, 8 * (mis % 8), 4096);
   void* y = gb_alloc(&gy, ell * ys, 8, 8 * ((mis + 3) % 8), 4096);
+  // squares: for the kernels whose operands share a layout, one call in five passes the very same vector twice
+  const int same = (k == K_BAA || k == K_BBB) && (mis % 5) == 4;
   uint64_t* res = gb_alloc(&gr, nres * 32, 8, 8 * ((mis + 5) % 8), 4096);
   gb_prefill(&gr, (int)mis, 3);
   const uint64_t nx = ell * (xs / 32);  // number of q120 elements in x
@@ -147,6 +149,10 @@ uint64_t q120_product_check(q120_kernel_t k0, int avx2, uint64_t ell, int famx, 
   if (k == K_BAA) q120_gen_a(r, famy, ny, (uint64_t*)y);
   else if (k == K_BBB) q120_gen_b(r, famy, ny, (uint64_t*)y);
   else q120_gen_c(r, famy, ny, (uint32_t*)y);
+  if (same) {
+    y = x;
+    cnt("product_with_both_operands_the_same_vector", 1);
+  }
   snap_t sx, sy;
   snap_take(&sx, x, ell * xs);
   snap_take(&sy, y, ell * ys);
